@@ -17,7 +17,7 @@ CaseResult judge(const fe::Obs &o, const fe::RunConfig &cfg, const std::string &
                      .kv("parent_blocked", hz::hex_sigset(cfg.parent_signals.blocked))
                      .kv("parent_ignored", hz::hex_sigset(cfg.parent_signals.ignored))
                      .kv("parent_handled", hz::hex_sigset(cfg.parent_signals.handled))
-                     .kv("parent_sigchld", cfg.parent_signals.sigchld == 0 ? "default" : cfg.parent_signals.sigchld == 1 ? "ignored" : "handler with SA_NOCLDWAIT")
+                     .kv("parent_sigchld", cfg.parent_signals.sigchld == 0 ? "default" : cfg.parent_signals.sigchld == 1 ? "ignored" : cfg.parent_signals.sigchld == 3 ? "default with SA_NOCLDWAIT" : "handler with SA_NOCLDWAIT")
                      .kv("child_SigBlk", hz::hex_sigset(o.child_sigblk))
                      .kv("child_SigIgn", hz::hex_sigset(o.child_sigign))
                      .kv("child_SigCgt", hz::hex_sigset(o.child_sigcgt))
@@ -70,7 +70,9 @@ CaseResult judge(const fe::Obs &o, const fe::RunConfig &cfg, const std::string &
   // What counts is the comparison of the caller's state before and after, above.
   for (auto &v : o.vs_violations)
     if (v.find("chdir(") != std::string::npos || v.find("sigaction(") != std::string::npos) res.cls("parent-state-touched-during-start");
-  if (cfg.parent_signals.sigchld) res.cls(cfg.parent_signals.sigchld == 1 ? "sigchld-ignored+fork-fails" : "sigchld-nocldwait+fork-fails");
+  if (!o.child_sigflags.empty()) res.fail("child-disposition-flags", ctx + "the forked child's dispositions still carry flags of the parent's actions (signal:flags " + o.child_sigflags + "): with SA_NOCLDWAIT left on SIGCHLD the child's own children are reaped behind its back");
+  if (cfg.parent_signals.sigchld >= 2 && o.scenario == fe::S_FORK && cfg.faults.empty()) res.cls("fork-child-with-parent-nocldwait");
+  else if (cfg.parent_signals.sigchld) res.cls(cfg.parent_signals.sigchld == 1 ? "sigchld-ignored+fork-fails" : "sigchld-nocldwait+fork-fails");
   if (o.r > 0 && o.hello) {
     const uint64_t std_signals = 0x7fffffffull;  // 1..31
     if (o.child_sigblk != 0)
